@@ -49,7 +49,7 @@ def run_case(ctx, n):
   if n % 5 == 4:
     return concurrent_live_case(ctx, n)
   rng = ctx.rng('case', n)
-  spec = cg.gen_spec(rng, nmax=rng.choice([6, 10, 16]), name_style=rng.choice(cg.NAME_STYLES))
+  spec = cg.gen_spec(rng, nmax=rng.choice([6, 10, 16]), name_style=rng.choice(cg.NAME_STYLES), clause_queries=n % 2 == 0)
   start = rng.randrange(spec['n'])
   script = cg.gen_script(rng, spec, rng.randint(4, 16))
   restart = rng.randrange(spec['n']) if rng.random() < 0.5 else None     # the chart is started a second time at the end of the script
